@@ -18,12 +18,20 @@ def uniq : List α → List α
 
 /-- one pass of the `for value in value.split(delim)` loop, forward/prepend -/
 def prependL (v : α) (old : List α) : List α := v :: old
-def appendL (v : α) (old : List α) : List α := old ++ [v]
+/-- append: the element moves to the end (earlier occurrences are dropped first; repair of D8) -/
+def appendL (v : α) (old : List α) : List α := old.filter (· != v) ++ [v]
+/-- the rule of the pinned tree (before the D8 repair): the value is added at the end and `pathUnique`, keeping
+the first occurrence, then drops it again when it was already present -/
+def appendLPinned (v : α) (old : List α) : List α := old ++ [v]
 def removeL (v : α) (old : List α) : List α := old.filter (· != v)
 
 /-- the whole loop followed by `pathUnique` -/
 def applyL (append fwd : Bool) (vals : List α) (old : List α) : List α :=
   uniq (vals.foldl (fun np v => if fwd then (if append then appendL v np else prependL v np) else removeL v np) old)
+
+/-- the loop with the pinned append rule (D8) -/
+def applyLPinned (append fwd : Bool) (vals : List α) (old : List α) : List α :=
+  uniq (vals.foldl (fun np v => if fwd then (if append then appendLPinned v np else prependL v np) else removeL v np) old)
 
 end ListLayer
 
